@@ -136,7 +136,7 @@ func init() {
 		theory[in+".Value"] = func(x *Exec, f *Frame, st *State, c *CallInfo) Val {
 			it := x.iterOf(st, c.Args[0])
 			if it == nil {
-				return &EncVal{Enc: "raw", V: x.freshTerm("val", SBytes), Nil: False}
+				return &EncVal{Enc: "stored", V: x.freshTerm("val", SBytes), Nil: False}
 			}
 			x.panicSite(f, st, Not(Lt(it.Idx, it.N)), "iterator.Value on invalid iterator at "+c.Pos)
 			kv := x.iterKey(st, it)
